@@ -65,6 +65,7 @@ package tree
 //@   ensures res == decimalLiteral(text)
 //
 //@ func valueFromCommandText(commandText string) (v *variable.Value)
+//@   unreachable "return variable.NewString(commandText)"   // the last fallback: every decimal literal parses
 //@   requires "non-empty-word": commandText != ""
 //@   ensures "word-table": wfVal(v) && fresh(v) &&
 //@           (commandText == "true" ? absval(v) == VBool(true)
